@@ -6,7 +6,6 @@ MODULES = [
         dict(name='drop:Display', kind='drop_item', pat=r'^impl<U: fmt::Display> fmt::Display for Error<U>', count=1),
         dict(name='drop:StdError', kind='drop_item', pat=r'^impl<U: fmt::Display \+ fmt::Debug> error::Error for Error<U>', count=1),
         dict(name='R-derive:Debug', pat='#[derive(Debug)]\npub enum Error', rep='pub enum Error'),
-        dict(name='drop:From<Infallible>', kind='drop_item', pat=r'^impl<U> From<Infallible> for Error<U>', count=1),
     ]),
     dict(name='compression', file='compression.rs', header=HDR_IO, rewrites=[
         dict(name='drop:FromStr', kind='drop_item', pat=r'^impl FromStr for CompressionType', count=1),
@@ -84,6 +83,15 @@ MODULES = [
     dict(name='merger', file='merger.rs', header=HDR_IO, rewrites=[
         dict(name='R-closure-pat:k', pat='.map(|(k, _)| k)', rep='.map(|e: (&[u8], &[u8])| -> (r: &[u8]) ensures r@ == e.0@ { e.0 })', count=2),
         dict(name='R-mutself', kind='mutself', fn='add', count=1),
+    ]),
+    dict(name='sorter', file='sorter.rs', header=HDR_IO, rewrites=[
+        dict(name='R-path:bytemuck', pat='use bytemuck::{cast_slice, cast_slice_mut, Pod, Zeroable};\n', rep='use crate::bytemuck::{cast_slice, cast_slice_mut};\n'),
+        dict(name='R-derive:Pod', pat='#[derive(Default, Copy, Clone, Pod, Zeroable)]', rep='#[derive(Copy, Clone)]'),
+        dict(name='R-mutself', kind='mutself', fn='extract_reader_cursors_and_merger', count=1),
+        dict(name='drop:Debug', kind='drop_item', pat=r'^impl<MF, CC: ChunkCreator> Debug for Sorter<MF, CC>', count=1),
+        dict(name='drop:DropBuffer', kind='drop_item', pat=r'^impl Drop for EntryBoundAlignedBuffer', count=1),
+        dict(name='drop:dynFn', kind='drop_item', pat=r'^impl<C: Write \+ Seek \+ Read, E: Into<Error>> ChunkCreator for dyn Fn', count=1),
+        dict(name='drop:tempfile', kind='drop_item', pat=r'^#\[cfg\(feature =\s+\)\]\n(#\[[^\n]*\]\n)*(pub struct TempFileChunk|impl ChunkCreator for TempFileChunk|pub type DefaultChunkCreator|use std::fs::File)', count=4),
     ]),
     dict(name='varint', file='varint.rs', header=HDR, rewrites=[]),
     dict(name='block_writer', file='block_writer.rs', header=HDR, rewrites=[
